@@ -35,16 +35,17 @@ def gen_cases(seed, tier):
     step = 8
     for lo in range(1, 261, step):
         cases.append(dict(kind="box", n_lo=lo, n_hi=min(lo + step - 1, 260),
-                          stride=2 if tier == "thorough" else 60, cstride=1 if tier == "thorough" else 16,
-                          offset=int(seed) % 60, devices=1))
+                          stride=4 if tier == "thorough" else 60, cstride=3 if tier == "thorough" else 16,
+                          offset=int(seed) % 60, devices=1, extras_every=1 if tier == "quick" else 3))
     # a sparse sample far outside the box (large state counts / batch sizes): arithmetic on all, layout on the smaller ones
     cases.append(dict(kind="large", devices=1))
     cases.append(dict(kind="devcount", devices=1))
     cases.append(dict(kind="devcount", devices=4))
     # the same box in workers that HAVE 8 (4) devices: an explicitly requested device count below / above the available one
     for lo, dv in ((1, 8), (60, 8), (125, 8), (250, 8), (33, 4), (190, 4)):
-        cases.append(dict(kind="box", n_lo=lo, n_hi=lo + step - 1, stride=2 if tier == "thorough" else 60,
-                          cstride=1 if tier == "thorough" else 16, offset=int(seed) % 60, devices=dv))
+        cases.append(dict(kind="box", n_lo=lo, n_hi=lo + step - 1, stride=4 if tier == "thorough" else 60,
+                          cstride=3 if tier == "thorough" else 16, offset=int(seed) % 60, devices=dv,
+                          extras_every=1 if tier == "quick" else 3))
     return cases
 
 
@@ -143,8 +144,9 @@ def run_case(case):
                 if not (np.array_equal(flat[:n], states) and (flat[n:] == 0).all()):
                     return dict(status="violation", kind="layout",
                                 detail=f"n={n} mb={mb} d={d}: prepared layout is not 'states in order, then zeros'")
+                extras = n_layout % int(case.get("extras_every", 1)) == 0
                 # ---- the same processor used again with other state arrays (other contents, other dtypes)
-                for alt in (states.astype(np.float64) + 0.125, (states.astype(np.int64) + 16777217).astype(np.int32),
+                for alt in () if not extras else (states.astype(np.float64) + 0.125, (states.astype(np.int64) + 16777217).astype(np.int32),
                             states[::-1].copy(), (states % 2).astype(bool), states.astype(np.float32) / 8):
                     try:
                         p2 = np.asarray(bp.prepare_batches(jnp.asarray(alt)))
@@ -184,7 +186,7 @@ def run_case(case):
                                             detail=f"n={n} mb={mb} d={d} trail={trail} dtype={np.dtype(dt).name}: unbatch changed dtype/rows "
                                                    f"({outi.dtype}, {outi.shape})")
                 # ---- the maximum batch size handed over as a NumPy integer (signed or unsigned) instead of a Python int
-                for ty in (np.int64, np.uint8 if mb <= 255 else np.uint16, np.uint64):
+                for ty in () if not extras else (np.int64, np.uint8 if mb <= 255 else np.uint16, np.uint64):
                     try:
                         bq = BatchProcessor(n_states=n, state_dim=2, max_batch_size=ty(mb), pmap_device_count=d)
                         fig = (int(bq.n_devices), int(bq.n_batches), int(bq.batch_size), int(bq.n_pad))
